@@ -6,6 +6,8 @@ Nodes:  E(kind, ty, **fields) for expressions, S(kind, **fields) for statements 
 from vlib.coqrun import hexlit
 
 U256 = ("int", 256, False)
+DEC = ("dec", 168, True)          # decimal: integers scaled by 10**10, 168 bits signed
+DEC_SCALE = 10 ** 10
 BOOL = ("bool",)
 ADDR = ("addr",)
 UNIT = ("struct", "", ())
@@ -42,6 +44,8 @@ def ty_vy(t):
         return f"String[{t[1]}]"
     if k == "flag":
         return t[1]
+    if k == "dec":
+        return "decimal"
     raise ValueError(t)
 
 
@@ -53,6 +57,8 @@ def ty_abi(t):
         return "string"
     if k == "flag":
         return "uint256"
+    if k == "dec":
+        return "int168"      # same encoding as fixed168x10 (the signature uses ty_sig)
     if k in ("int", "bool"):
         return ty_vy(t)
     if k == "addr":
@@ -66,10 +72,26 @@ def ty_abi(t):
     raise ValueError(t)
 
 
+def ty_sig(t):
+    """type string used in function signatures (selectors)"""
+    k = t[0]
+    if k == "dec":
+        return "fixed168x10"
+    if k == "sarr":
+        return f"{ty_sig(t[1])}[{t[2]}]"
+    if k == "darr":
+        return f"{ty_sig(t[1])}[]"
+    if k == "struct":
+        return "(" + ",".join(ty_sig(ft) for _, ft in t[2]) + ")"
+    return ty_abi(t)
+
+
 def ty_coq(t):
     k = t[0]
     if k == "int":
         return f"(TInt {t[1]} {'true' if t[2] else 'false'})"
+    if k == "dec":
+        return "(TInt 168 true)"
     if k == "flag":      # a flag with n members is an n-bit mask: ABI validation is `value < 2**n`
         return f"(TInt {t[2]} false)"
     if k == "bool":
@@ -91,7 +113,7 @@ def ty_coq(t):
 
 def zero_val(t):
     k = t[0]
-    if k in ("int", "addr", "flag"):
+    if k in ("int", "addr", "flag", "dec"):
         return 0
     if k == "bool":
         return False
@@ -126,13 +148,16 @@ def val_vy(v, t):
         return "True" if v else "False"
     if k == "bytes":
         return 'b"' + "".join(f"\\x{b:02x}" for b in v) + '"'
+    if k == "dec":
+        txt = f"{abs(v) // DEC_SCALE}.{abs(v) % DEC_SCALE:010d}"
+        return f"(-{txt})" if v < 0 else txt
     if k == "flag":
         ms = [f"{t[1]}.M{i}" for i in range(t[2]) if (v >> i) & 1]
         return "(" + " | ".join(ms) + ")" if ms else f"empty({t[1]})"
     if k == "string":
         return '"' + bytes(v).decode("ascii") + '"'
     if k == "int":
-        return str(v)
+        return f"({v})" if v < 0 else str(v)     # `-3 ** x` parses as -(3 ** x)
     if k == "addr":
         if not v:
             return "empty(address)"
@@ -192,7 +217,7 @@ class S:
         return S(self.k, **f)
 
 
-BINOP_VY = {"Add": "+", "Sub": "-", "Mul": "*", "Div": "//", "Mod": "%", "BAnd": "&", "BOr": "|", "BXor": "^", "Pow": "**"}
+BINOP_VY = {"Add": "+", "Sub": "-", "Mul": "*", "Div": "//", "Mod": "%", "BAnd": "&", "BOr": "|", "BXor": "^", "Pow": "**", "DMul": "*", "DDiv": "/"}
 CMP_VY = {"Lt": "<", "Le": "<=", "Gt": ">", "Ge": ">=", "Eq": "==", "Ne": "!="}
 
 
@@ -253,6 +278,9 @@ def e_vy(e):
         return "[" + ", ".join(e_vy(x) for x in e.elems) + "]"
     if k == "pop":
         return f"{base_vy(e.base)}{path_vy(e.path)}.pop()"
+    if k == "dec":
+        return {"ToDec": f"convert({e_vy(e.a)}, decimal)", "FromDec": f"convert({e_vy(e.a)}, {ty_vy(e.ty)})",
+                "Floor": f"floor({e_vy(e.a)})", "Ceil": f"ceil({e_vy(e.a)})"}[e.mode]
     if k == "flagnot":
         return f"(~{e_vy(e.a)})"
     if k == "flagin":
@@ -372,6 +400,8 @@ def e_coq(e):
         return "(EList [" + "; ".join(e_coq(x) for x in e.elems) + "])"
     if k == "pop":
         return f"(EPop ({base_coq(e.base)}) {path_coq(e.path)})"
+    if k == "dec":
+        return f"(EDec {e.mode} {ty_coq(e.ty)} {e_coq(e.a)})"
     if k == "flagnot":     # ~x on a flag with n members = x xor (2**n - 1)
         return f"(EBin BXor {ty_coq(e.ty)} {e_coq(e.a)} (EConst (VInt {2 ** e.ty[2] - 1})))"
     if k == "flagin":      # a in b  <=>  a & b != 0
@@ -454,7 +484,7 @@ class Fun:
 
     def abi_sig(self, given=None):
         ps = self.params if given is None else self.params[:given]
-        return f"{self.name}(" + ",".join(ty_abi(t) for _, t in ps) + ")"
+        return f"{self.name}(" + ",".join(ty_sig(t) for _, t in ps) + ")"
 
 
 class Program:
